@@ -967,7 +967,7 @@ def run(ctx: vlib.Ctx):
         "fields typed by a PEP 695 alias always have a default in the generated programs (a required one hits the known "
         "finding C07/pep695-alias-name-unbound, which is probed separately in every run)",
     ]
-    nprog = ctx.budget(32, 380)
+    nprog = ctx.budget(32, 300)
     nmax = ctx.budget(8, 10)
     lays: list[str] = []
     cases: list[str] = []
